@@ -1,9 +1,10 @@
 /* VERIF-UNIT
 {
  "name": "mark_table_blocks",
+ "backend": "cadical",
  "props": ["C19"],
  "level": "U/iter",
- "tier": "wip",
+ "tier": "quick",
  "tier_after_hooks": "quick",
  "harness": "h_mark_table_blocks",
  "loop_contracts": true,
@@ -26,7 +27,7 @@
  "name": "e2image_check_zero_block",
  "props": ["C19"],
  "level": "U",
- "tier": "wip",
+ "tier": "quick",
  "tier_after_hooks": "quick",
  "harness": "h_check_zero_block",
  "enforce": ["check_zero_block"],
